@@ -14,10 +14,15 @@ Classes
                                      scripts, workers that amend): serial / overlap-blocks (intervals
                                      overlap, the RPC blocks do not) / rpcs-interleaved; `shared` = they
                                      mention a common path or label
-  creator:<started>:<stopped>        a command whose CREATOR's command also runs in this build (second
-                                     builds: the creator is re-executed): the product started
-                                     before-creator-start / while-creator-runs / after-creator-stop and
-                                     stopped ... (the same three)
+  creator:<started>:<stopped>        a command whose CREATOR's command also runs (once) in this build: the
+                                     product started before-creator-start / while-creator-runs /
+                                     after-creator-stop and stopped ... (the same three)
+  creator-reruns:<started>:<stopped> the creator's command runs TWICE in this build (deferred, dispatched
+                                     again: reset_for_rerun detaches the product until it is defined
+                                     again); relative to the second execution; plus
+                                     request-while-detached / completion-while-detached when a request /
+                                     the completion of the product falls between the creator's restart
+                                     and its first define_step
   hash:<prev>|<next>                 a committing hash job (Executor._run_hash_job) between which two
                                      kinds of committing transactions: decl (a DirectorHandler request),
                                      hash, dispatch (Scheduler.pop_next_job), completion
@@ -135,8 +140,27 @@ def profile(r, program: dict) -> dict:
         cr = _creator_of(program, c["label"])
         if cr is None or cr not in by_label:
             continue
-        k = by_label[cr][0]
-        prof[f"creator:started-{_rel(c['start'], k)}:stopped-{_rel(c['stop'], k)}"] += 1
+        ks = sorted(by_label[cr], key=lambda k: k["start"])
+        if len(ks) == 1:
+            prof[f"creator:started-{_rel(c['start'], ks[0])}:stopped-{_rel(c['stop'], ks[0])}"] += 1
+            continue
+        # the creator is executed again within this build (deferred, then dispatched again): its
+        # reset_for_rerun detaches the product until the creator has defined it again
+        k2 = ks[1]
+        prof[f"creator-reruns:started-{_rel(c['start'], k2)}:stopped-{_rel(c['stop'], k2)}"] += 1
+        # the creator's script issues its define_step requests in script order: the j-th one defines the
+        # j-th step of the script (the RPC log has no arguments)
+        redefs = [s for n, _ok, s in k2["rpc"] if n == "define_step"]
+        defined = [a.get("label") for a in (_script(program, cr) or [])
+                   if isinstance(a, dict) and a.get("op") in ("run", "plan")]
+        j = defined.index(c["label"]) if c["label"] in defined else 0
+        until = redefs[j] if j < len(redefs) else (k2["stop"] if k2["stop"] is not None else 10 ** 9)
+        if any(n in DECL_RPCS and k2["start"] < s < until for n, _ok, s in c["rpc"]):
+            prof["creator-reruns:request-while-detached"] += 1
+            prof["detached-request:" + c["label"]] += 1        # per label: establishes the cause of a finding
+        if c["stop"] is not None and k2["start"] < c["stop"] < until:
+            prof["creator-reruns:completion-while-detached"] += 1
+            prof["detached-completion:" + c["label"]] += 1
     # ---- committing hash jobs among the other committing transactions
     sites = [_site_kind(s) for s, wrote in r.commit_points if wrote]
     for i, s in enumerate(sites):
